@@ -30,6 +30,8 @@ func init() {
 
 func runC14(c *core.Ctx, r *core.Reporter) {
 	c.BuildSSA()
+	c14count(c, r)
+	c.BuildSSA()
 	c14kw(c, r)
 	c14sibling(c, r)
 	c14stable(c, r)
@@ -299,5 +301,45 @@ func c14stable(c *core.Ctx, r *core.Reporter) {
 		}
 		walk(c.SSAFunc(b.Call), 0)
 		r.Decide(len(bad) == 0, rule, "pkg/cl:"+name, c.Pos(b.Pos), fmt.Sprintf("unstable primitives reached: %v", bad))
+	}
+}
+
+// c14count: :count bounds the number of elements *changed*. Where an implementation keeps the remaining budget
+// in a field and decrements it, the decrement belongs to the branch that changes an element. The rule: in the
+// sequence family, a store `x.count = x.count - 1` is not executed on every path through its function (it is
+// control-dependent on the match). Before 8fd5045 substitute and substitute-if decremented once per element
+// looked at: (substitute 'x 1 '(2 1 1 1) :count 2) => (2 x 1 1).
+func c14count(c *core.Ctx, r *core.Reporter) {
+	const rule = "C14.count"
+	r.Rule(rule, "in pkg/cl a decrement of a remaining-count field is conditional inside its function: the budget of :count is spent per element changed, not per element examined", 4)
+	for _, fn := range c.ModuleFuncs() {
+		if fn.Pkg == nil || core.RelPkg(fn.Pkg.Pkg.Path()) != "pkg/cl" {
+			continue
+		}
+		n := 0
+		for _, b := range fn.Blocks {
+			for _, in := range b.Instrs {
+				st, ok := in.(*ssa.Store)
+				if !ok {
+					continue
+				}
+				fa, ok := st.Addr.(*ssa.FieldAddr)
+				if !ok || fieldName(fa) != "count" {
+					continue
+				}
+				bo, ok := st.Val.(*ssa.BinOp)
+				if !ok || bo.Op != token.SUB {
+					continue
+				}
+				if cst, ok := bo.Y.(*ssa.Const); !ok || cst.Value == nil || cst.Int64() != 1 {
+					continue
+				}
+				n++
+				// can the function return without passing this block?
+				avoid := map[*ssa.BasicBlock]int{b: 0}
+				conditional := len(fn.Blocks) > 0 && b != fn.Blocks[0] && escapes(fn.Blocks[0], -1, avoid)
+				r.Decide(conditional, rule, fmt.Sprintf("%s|count decrement #%d", core.SSAName(fn), n), c.Pos(st.Pos()), fmt.Sprintf("the decrement is not on every path through the function: %v", conditional))
+			}
+		}
 	}
 }
